@@ -132,6 +132,11 @@ void vk_trace_enable(void);          /* VCALLs from now on run single-stepped; r
 extern int vk_trace_on;
 extern int vk_want_trace;       /* --trace-isa given: engines reduce their grids and call vk_trace_enable() */
 
+/* ---------- write trap on library statics (C18a) ---------- */
+void vk_wtrap_enable(void);          /* isal_data / isal_bss become read-only; library stores are logged and attributed */
+void vk_wtrap_suspend(int off);
+extern int vk_wtrap_on, vk_want_wtrap;
+
 /* ---------- virtual CPU ---------- */
 extern uint32_t vcpu_mode, vcpu_l1[4], vcpu_l7[4];
 extern uint64_t vcpu_xcr0, vcpu_ncpuid, vcpu_nxgetbv, vcpu_xgetbv_ud;
